@@ -5,7 +5,7 @@ from .. import core, bdd
 from ..core import Failure
 
 IDENTS = ['a', 'b', 'c', 'd', 'x1', '_v', 'Var', 'notx', 'andy', 'orb', 'lambda_', 'T', 'ab', 'abc', 'A', 'match', 'case',
-          'type', 'x2', 'a1', 'e', 'True_', 'None_', 'id', 'print']
+          'type', 'x2', 'a1', 'e', 'True_', 'None_', 'id', 'print', '\u00e9', '\u00f1', '\u0439', '\u00fc', '\u03b1', '\u00df']
 
 
 def _obdd():
